@@ -441,7 +441,8 @@ Proof.
            | |- exists q, Some ?x = Some q /\ _ => exists x; split; [reflexivity|]
            | |- forall m, None = Some m -> _ => intros ? ?; discriminate
            end.
-  - unfold valid_locations, plain_example. cbn [s_ddefs dd_locs]. repeat constructor; vm_compute; tauto.
+  - unfold valid_locations, plain_example. cbn [s_ddefs dd_locs].
+    repeat (first [apply Forall_nil | apply Forall_cons]); vm_compute; repeat (first [left; reflexivity | right]).
   - vm_compute; reflexivity.
   - split.
     + intros a Ha v n Hv Hn. vm_compute in Ha.
